@@ -23,7 +23,7 @@ func (fgen *funcGen) newTerm(old ast.Terminator) (ir.Terminator, error) {
 		if err != nil {
 			return nil, err
 		}
-		fgen.recordExplicitID(ident, term)
+		fgen.recordExplicitID(ident, old.Name().Text(), term)
 		return term, nil
 	case ast.ValueTerminator:
 		unnamed := ir.LocalIdent{}
